@@ -16,6 +16,7 @@
 package meta
 
 import (
+	"bytes"
 	"regexp/syntax"
 )
 
@@ -41,6 +42,10 @@ type AnchoredLiteralInfo struct {
 
 	// WildcardMin is 0 for .* or 1 for .+
 	WildcardMin int
+
+	// WildcardNotNL is true when the wildcard is `.` without the s flag,
+	// which must not cross a newline.
+	WildcardNotNL bool
 
 	// MinLength is the minimum input length for a possible match.
 	// Calculated as: len(Prefix) + WildcardMin + CharClassMin + len(Suffix)
@@ -102,6 +107,7 @@ func DetectAnchoredLiteral(re *syntax.Regexp) *AnchoredLiteralInfo {
 	var prefix []byte
 	var wildcardIdx = -1
 	var wildcardMin int
+	var wildcardNotNL bool
 	var charClassTable *[256]bool
 	var charClassMin int
 
@@ -117,6 +123,7 @@ func DetectAnchoredLiteral(re *syntax.Regexp) *AnchoredLiteralInfo {
 			}
 			wildcardIdx = i
 			wildcardMin = getWildcardMin(sub)
+			wildcardNotNL = sub.Sub[0].Op == syntax.OpAnyCharNotNL
 		} else if wildcardIdx == -1 {
 			// Before wildcard - must be literal (prefix)
 			lit := extractLiteral(sub)
@@ -162,6 +169,7 @@ func DetectAnchoredLiteral(re *syntax.Regexp) *AnchoredLiteralInfo {
 		CharClassTable: charClassTable,
 		CharClassMin:   charClassMin,
 		WildcardMin:    wildcardMin,
+		WildcardNotNL:  wildcardNotNL,
 		MinLength:      minLen,
 	}
 }
@@ -323,7 +331,10 @@ func MatchAnchoredLiteral(input []byte, info *AnchoredLiteralInfo) bool {
 	if info.CharClassTable == nil {
 		// Still need to verify wildcard minimum
 		middleLen := suffixStart - len(info.Prefix)
-		return middleLen >= info.WildcardMin
+		if middleLen < info.WildcardMin {
+			return false
+		}
+		return !info.WildcardNotNL || bytes.IndexByte(input[len(info.Prefix):suffixStart], '\n') < 0
 	}
 
 	// O(k) charclass bridge check
@@ -348,5 +359,10 @@ func MatchAnchoredLiteral(input []byte, info *AnchoredLiteralInfo) bool {
 		}
 	}
 
-	return found >= info.CharClassMin
+	if found < info.CharClassMin {
+		return false
+	}
+	// The wildcard covers what the longest class run leaves; a shorter run
+	// only makes that part longer.
+	return !info.WildcardNotNL || bytes.IndexByte(input[len(info.Prefix):charClassEnd-found], '\n') < 0
 }
